@@ -8,6 +8,8 @@ import Driver.Fmt
 import Driver.Alg
 import Driver.Export
 import Driver.Split
+import Driver.Cache
+import Driver.Crash
 
 open Lean Driver
 
@@ -21,6 +23,8 @@ def dispatch (op : String) (inp out : Json) : Json :=
   | "exportrt" => runExportRT inp out
   | "import" => runImport inp out
   | "split" => runSplit inp out
+  | "cache" => runCacheOp inp out
+  | "crashwrite" => runCrash inp out
   | _ => Json.mkObj [("same", Json.bool false), ("diff", Json.str s!"unknown op {op}"), ("fails", Json.arr #[])]
 
 partial def loop (h : IO.FS.Stream) (o : IO.FS.Stream) : IO Unit := do
